@@ -227,6 +227,11 @@ class Machine:
 
     def store(self, t, v, env, header):
         if isinstance(t, ast.Name):
+            if t.id in self.header_names and (v is OPAQUE or v is HDR):
+                # header = fits.getheader(...) / hdulist[0].header: the
+                # model header
+                env[t.id] = HDR
+                return
             env[t.id] = v
         elif isinstance(t, (ast.Tuple, ast.List)):
             if isinstance(v, (tuple, list)) and len(v) == len(t.elts):
